@@ -21,7 +21,7 @@ use std::time::{Duration, Instant};
 
 use axum::Extension;
 use klukai_agent::agent::{process_multiple_changes, start_with_config};
-use klukai_agent::api::peer::verif_hooks::handle_need;
+use klukai_agent::api::peer::verif_hooks::{handle_need, process_sync};
 use klukai_agent::api::public::{TimeoutParams, api_v1_transactions};
 use klukai_types::actor::ActorId;
 use klukai_types::agent::{Agent, Bookie};
@@ -450,6 +450,85 @@ impl Cluster {
         format!("{r} needs={} msgs={}", show_list(&need_txt, ";"), show_list(&msg_txt, ";"))
     }
 
+    /// `nserve <src> <site> <need>`: one request through the REAL `process_sync` (its own filter, its jobs
+    /// calling `handle_need` on a pooled read connection); need = F<lo>-<hi> | P<ver>:<ranges>
+    pub fn serve(&mut self, src: usize, site: usize, need: &str) -> String {
+        let need = if let Some(r) = need.strip_prefix('F') {
+            match crate::util::parse_range(r) {
+                Some((lo, hi)) if lo >= 1 && lo <= hi => SyncNeedV1::Full { versions: CrsqlDbVersion(lo)..=CrsqlDbVersion(hi) },
+                _ => return "bad-op".into(),
+            }
+        } else if let Some(r) = need.strip_prefix('P') {
+            let Some((v, rs)) = r.split_once(':') else { return "bad-op".into() };
+            let (Ok(v), Some(rs)) = (v.parse::<u64>(), crate::util::parse_ranges(rs)) else { return "bad-op".into() };
+            if rs.is_empty() || rs.iter().any(|(a, b)| a > b) {
+                return "bad-op".into();
+            }
+            SyncNeedV1::Partial { version: CrsqlDbVersion(v), seqs: rs.into_iter().map(|(a, b)| CrsqlSeq(a)..=CrsqlSeq(b)).collect() }
+        } else {
+            return "bad-op".into();
+        };
+        let node = &self.nodes[&src];
+        let pool = node.agent.pool().clone();
+        let bookie = node.bookie.clone();
+        let actor = actor_of(site);
+        let res: Result<Vec<ChangeV1>, String> = self.rt.block_on(async move {
+            let (tx_msg, mut rx_msg) = tokio::sync::mpsc::channel::<SyncMessage>(100_000);
+            let (tx_req, rx_req) = tokio::sync::mpsc::channel(8);
+            let h = tokio::spawn(process_sync(pool, bookie, tx_msg, rx_req));
+            tx_req.send(vec![(actor, vec![need])]).await.map_err(|e| e.to_string())?;
+            drop(tx_req);
+            match tokio::time::timeout(Duration::from_secs(30), h).await {
+                Ok(Ok(Ok(()))) => {}
+                Ok(Ok(Err(e))) => return Err(format!("{e}")),
+                Ok(Err(e)) => return Err(format!("{e}")),
+                Err(_) => return Err("timeout".into()),
+            }
+            let mut out = vec![];
+            while let Ok(m) = rx_msg.try_recv() {
+                if let SyncMessage::V1(SyncMessageV1::Changeset(c)) = m {
+                    out.push(c);
+                }
+            }
+            Ok(out)
+        });
+        match res {
+            Ok(msgs) => {
+                let txt: Vec<String> = msgs.iter().map(Self::show_msg_full).collect();
+                format!("ok msgs={}", show_list(&txt, ";"))
+            }
+            Err(e) => format!("err {}", err_short(&e)),
+        }
+    }
+
+    /// like `show_msg` but with the changes spelled out (C05 compares what is sent, not only seqs)
+    pub fn show_msg_full(c: &ChangeV1) -> String {
+        let s = site_index(c.actor_id.0.as_bytes());
+        match &c.changeset {
+            Changeset::Full { version, changes, seqs, last_seq, .. } => {
+                let items: Vec<String> = changes
+                    .iter()
+                    .map(|ch| {
+                        format!(
+                            "{}/{}/{}={}@{}.{}.{}.{}.{}",
+                            ch.table.0,
+                            show_pk(&ch.pk),
+                            ch.cid.0,
+                            show_val(&ch.val),
+                            ch.col_version,
+                            ch.cl,
+                            site_index(&ch.site_id),
+                            ch.db_version.0,
+                            ch.seq.0
+                        )
+                    })
+                    .collect();
+                format!("F{s}:{}:{}-{}/{}:{}", version.0, seqs.start().0, seqs.end().0, last_seq.0, show_list(&items, ","))
+            }
+            _ => Self::show_msg(c),
+        }
+    }
+
     pub fn dump(&self, n: usize) -> String {
         let conn = match self.read_conn(n) {
             Ok(c) => c,
@@ -599,6 +678,13 @@ impl Cluster {
                     }
                 }
                 self.sync(d, s, f)
+            }
+            ["nserve", n, site, need] => {
+                let (n, site) = (pn(n)?, pn(site)?);
+                if let Err(e) = self.ensure(n) {
+                    return Some(format!("err {e}"));
+                }
+                self.serve(n, site, need)
             }
             ["nstate", n] => {
                 let n = pn(n)?;
